@@ -54,22 +54,46 @@ var sentIter = starlark.Tuple{starlark.String("PREV")}
 var sentVal = starlark.String("PREV")
 var lenFn = starlark.Universe["len"]
 
+// an application-defined Unpacker: it takes strings only and stores nothing on failure
+type strUnpacker struct{ v starlark.Value }
+
+func (u *strUnpacker) Unpack(v starlark.Value) error {
+	s, ok := v.(starlark.String)
+	if !ok {
+		return fmt.Errorf("got %s, want string", v.Type())
+	}
+	u.v = s
+	return nil
+}
+
 type tgt struct {
-	v  starlark.Value
-	s  string
-	b  bool
-	i  int
-	i8 int8
-	u8 uint8
-	f  float64
-	l  *starlark.List
-	d  *starlark.Dict
-	c  starlark.Callable
-	it starlark.Iterable
+	v   starlark.Value
+	s   string
+	b   bool
+	i   int
+	i8  int8
+	u8  uint8
+	i16 int16
+	i32 int32
+	i64 int64
+	u   uint
+	u16 uint16
+	u32 uint32
+	u64 uint64
+	up  uintptr
+	unp strUnpacker
+	tup starlark.Tuple
+	iv  starlark.Int
+	f   float64
+	l   *starlark.List
+	d   *starlark.Dict
+	c   starlark.Callable
+	it  starlark.Iterable
 }
 
 func newTgt() *tgt {
-	return &tgt{v: sentVal, s: "PREV", b: false, i: -777, i8: -77, u8: 255, f: -7.5, l: sentList, d: sentDict, c: sentFunc, it: sentIter}
+	return &tgt{v: sentVal, s: "PREV", b: false, i: -777, i8: -77, u8: 77, i16: -7777, i32: -77777, i64: -777777, u: 777777, u16: 7777, u32: 77777, u64: 777777, up: 777777,
+		unp: strUnpacker{sentVal}, tup: starlark.Tuple{starlark.String("PREV")}, iv: starlark.MakeInt(-777777), f: -7.5, l: sentList, d: sentDict, c: sentFunc, it: sentIter}
 }
 
 func (t *tgt) ptr(kind string) any {
@@ -86,6 +110,28 @@ func (t *tgt) ptr(kind string) any {
 		return &t.i8
 	case "uint8":
 		return &t.u8
+	case "int16":
+		return &t.i16
+	case "int32":
+		return &t.i32
+	case "int64":
+		return &t.i64
+	case "uint":
+		return &t.u
+	case "uint16":
+		return &t.u16
+	case "uint32":
+		return &t.u32
+	case "uint64":
+		return &t.u64
+	case "uintptr":
+		return &t.up
+	case "unpacker":
+		return &t.unp
+	case "tuplev":
+		return &t.tup
+	case "intv":
+		return &t.iv
 	case "float":
 		return &t.f
 	case "list":
@@ -128,6 +174,9 @@ func mkArg(a uArg) starlark.Value {
 }
 
 func describeVal(v starlark.Value) uArg {
+	if v == nil {
+		return uArg{T: "nil"} // the target was overwritten with a nil interface
+	}
 	switch v := v.(type) {
 	case starlark.NoneType:
 		return uArg{T: "none"}
@@ -179,17 +228,77 @@ func (t *tgt) read(kind string) *uArg {
 		if t.i == -777 {
 			return nil
 		}
-		return &uArg{T: "int", Z: strconv.Itoa(t.i)}
+		return &uArg{T: "int", Z: strconv.FormatInt(int64(t.i), 10)}
 	case "int8":
 		if t.i8 == -77 {
 			return nil
 		}
 		return &uArg{T: "int", Z: strconv.Itoa(int(t.i8))}
 	case "uint8":
-		if t.u8 == 255 {
+		if t.u8 == 77 {
 			return nil
 		}
 		return &uArg{T: "int", Z: strconv.Itoa(int(t.u8))}
+	case "int16":
+		if t.i16 == -7777 {
+			return nil
+		}
+		return &uArg{T: "int", Z: strconv.Itoa(int(t.i16))}
+	case "int32":
+		if t.i32 == -77777 {
+			return nil
+		}
+		return &uArg{T: "int", Z: strconv.Itoa(int(t.i32))}
+	case "int64":
+		if t.i64 == -777777 {
+			return nil
+		}
+		return &uArg{T: "int", Z: strconv.FormatInt(t.i64, 10)}
+	case "uint":
+		if t.u == 777777 {
+			return nil
+		}
+		return &uArg{T: "int", Z: strconv.FormatUint(uint64(t.u), 10)}
+	case "uint16":
+		if t.u16 == 7777 {
+			return nil
+		}
+		return &uArg{T: "int", Z: strconv.Itoa(int(t.u16))}
+	case "uint32":
+		if t.u32 == 77777 {
+			return nil
+		}
+		return &uArg{T: "int", Z: strconv.FormatUint(uint64(t.u32), 10)}
+	case "uint64":
+		if t.u64 == 777777 {
+			return nil
+		}
+		return &uArg{T: "int", Z: strconv.FormatUint(t.u64, 10)}
+	case "uintptr":
+		if t.up == 777777 {
+			return nil
+		}
+		return &uArg{T: "int", Z: strconv.FormatUint(uint64(t.up), 10)}
+	case "unpacker":
+		if t.unp.v == starlark.Value(sentVal) {
+			return nil
+		}
+		a := describeVal(t.unp.v)
+		return &a
+	case "tuplev":
+		if len(t.tup) == 1 && t.tup[0] == starlark.Value(starlark.String("PREV")) {
+			return nil
+		}
+		if t.tup == nil {
+			return &uArg{T: "nil"}
+		}
+		a := describeVal(t.tup)
+		return &a
+	case "intv":
+		if n, ok := t.iv.Int64(); ok && n == -777777 {
+			return nil
+		}
+		return &uArg{T: "int", Z: t.iv.String()}
 	case "float":
 		if t.f == -7.5 {
 			return nil
@@ -243,20 +352,25 @@ func accepts(kind string, a uArg) bool {
 		return a.T == "string"
 	case "bool":
 		return a.T == "bool"
-	case "int", "int8", "uint8":
+	case "int", "int8", "int16", "int32", "int64", "uint", "uint8", "uint16", "uint32", "uint64", "uintptr":
+		// an integer variable takes exactly the ints it can represent
 		if a.T != "int" {
 			return false
 		}
 		z, _ := new(big.Int).SetString(a.Z, 10)
-		lo, hi := big.NewInt(-128), big.NewInt(127)
-		if kind == "uint8" {
-			lo, hi = big.NewInt(0), big.NewInt(255)
-		}
-		if kind == "int" {
-			lo = new(big.Int).Neg(new(big.Int).Lsh(big.NewInt(1), 63))
-			hi = new(big.Int).Sub(new(big.Int).Lsh(big.NewInt(1), 63), big.NewInt(1))
+		bits, signed := intKind(kind)
+		lo, hi := big.NewInt(0), new(big.Int).Sub(new(big.Int).Lsh(big.NewInt(1), uint(bits)), big.NewInt(1))
+		if signed {
+			lo = new(big.Int).Neg(new(big.Int).Lsh(big.NewInt(1), uint(bits-1)))
+			hi = new(big.Int).Sub(new(big.Int).Lsh(big.NewInt(1), uint(bits-1)), big.NewInt(1))
 		}
 		return z.Cmp(lo) >= 0 && z.Cmp(hi) <= 0
+	case "unpacker":
+		return a.T == "string"
+	case "tuplev":
+		return a.T == "tuple"
+	case "intv":
+		return a.T == "int"
 	case "float":
 		return a.T == "float"
 	case "list":
@@ -477,7 +591,65 @@ var argPool = []uArg{
 	{T: "float"}, {T: "string"}, {T: "list"}, {T: "dict"}, {T: "tuple"}, {T: "func"},
 }
 
+// intKind: width and signedness of an integer target kind (0 = not an integer kind); Go's int/uint/uintptr are 64 bits here
+func intKind(kind string) (bits int, signed bool) {
+	switch kind {
+	case "int", "int64":
+		return 64, true
+	case "int8":
+		return 8, true
+	case "int16":
+		return 16, true
+	case "int32":
+		return 32, true
+	case "uint", "uint64", "uintptr":
+		return 64, false
+	case "uint8":
+		return 8, false
+	case "uint16":
+		return 16, false
+	case "uint32":
+		return 32, false
+	}
+	return 0, false
+}
+
+// boundary values of an integer target: min-1, min, -1, 0, max, max+1, 2^bits, -2^bits, and big ints of both signs
+func intBoundaries(bits int, signed bool) []string {
+	one := big.NewInt(1)
+	pow := func(k int) *big.Int { return new(big.Int).Lsh(one, uint(k)) }
+	var vs []*big.Int
+	if signed {
+		min := new(big.Int).Neg(pow(bits - 1))
+		max := new(big.Int).Sub(pow(bits-1), one)
+		vs = []*big.Int{new(big.Int).Sub(min, one), min, new(big.Int).Add(min, one), big.NewInt(-1), big.NewInt(0), new(big.Int).Sub(max, one), max, new(big.Int).Add(max, one)}
+	} else {
+		max := new(big.Int).Sub(pow(bits), one)
+		vs = []*big.Int{big.NewInt(-1), big.NewInt(0), big.NewInt(1), pow(bits - 1), new(big.Int).Sub(max, one), max, new(big.Int).Add(max, one)}
+	}
+	vs = append(vs, pow(bits), new(big.Int).Neg(pow(bits)), new(big.Int).Add(pow(bits), one), pow(70), new(big.Int).Neg(pow(70)))
+	out := make([]string, len(vs))
+	for i, v := range vs {
+		out[i] = v.String()
+	}
+	return out
+}
+
+func inPool(pool []string, k string) bool {
+	for _, x := range pool {
+		if x == k {
+			return true
+		}
+	}
+	return false
+}
+
 func pickArg(r *hx.Rand, kind string, id int) uArg {
+	// an integer target: half of the time one of its boundary values
+	if bits, signed := intKind(kind); bits > 0 && r.Intn(2) == 0 {
+		bs := intBoundaries(bits, signed)
+		return uArg{T: "int", Z: bs[r.Intn(len(bs))]}
+	}
 	// half of the time an argument its parameter accepts, otherwise any type
 	var a uArg
 	if kind != "" && r.Intn(2) == 0 {
@@ -526,26 +698,26 @@ func unpackMain(argv []string) {
 	fs.Parse(argv)
 	r := hx.NewRand(*seed)
 	kinds := []string{"value", "int", "string", "bool", "list", "int8"}
-	if *full {
-		kinds = []string{"value", "int", "string", "bool", "list", "int8", "float", "dict", "callable", "iterable"}
-	}
 	markers := []string{"plain", "opt", "optnone"}
 	names := []string{"x", "y", "z"}
 	// all parameter lists
 	var lists [][]uParam
 	var rec func(cur []uParam)
-	allKinds := []string{"value", "int", "string", "bool", "list", "int8", "uint8", "float", "dict", "callable", "iterable"}
+	// every case of the type switch in unpackArgNoEscape / AsInt, the Unpacker path and the reflection path
+	allKinds := []string{"value", "string", "bool", "int", "int8", "int16", "int32", "int64", "uint", "uint8", "uint16", "uint32", "uint64", "uintptr",
+		"float", "list", "dict", "callable", "iterable", "unpacker", "tuplev", "intv"}
+	// all kinds in every position: every list of <= 2 parameters over all kinds, and 3-parameter lists whose
+	// third parameter ranges over all kinds (the first two over the small pool); -full: all kinds everywhere
 	rec = func(cur []uParam) {
 		lists = append(lists, append([]uParam{}, cur...))
 		if len(cur) == 3 {
 			return
 		}
-		ks := kinds
-		if len(cur) == 0 { // the first parameter ranges over every target kind
-			ks = allKinds
-		}
 		for _, m := range markers {
-			for _, k := range ks {
+			for _, k := range allKinds {
+				if !*full && len(cur) == 2 && !(inPool(kinds, cur[0].Kind) && inPool(kinds, cur[1].Kind)) {
+					continue
+				}
 				rec(append(cur, uParam{names[len(cur)], m, k}))
 			}
 		}
@@ -614,7 +786,10 @@ func unpackMain(argv []string) {
 		if len(cur) == 3 {
 			return
 		}
-		for _, k := range kinds {
+		for _, k := range allKinds {
+			if len(cur) == 2 && !(cur[0] == "value" && cur[1] == "value") && !inPool(kinds, k) {
+				continue
+			}
 			krec(append(cur, k))
 		}
 	}
